@@ -47,7 +47,10 @@ def main():
                 print(f"{m['id']}: pattern found {src.count(m['old'])} times in {m['file']} - skipped")
                 results.append(dict(id=m["id"], prop=m["prop"], status="pattern-mismatch"))
                 continue
-            open(path, "w").write(src.replace(m["old"], m["new"]))
+            src = src.replace(m["old"], m["new"])
+            if m.get("prepend"):
+                src = src.replace(m["prepend_after"], m["prepend_after"] + m["prepend"], 1)
+            open(path, "w").write(src)
             c = sh(sys.executable.replace("python3", "python3"), "-c", f"import ast,sys; ast.parse(open({path!r}).read())")
             env = dict(os.environ, EKOSIM_REPO=wt)
             t0 = time.time()
